@@ -273,9 +273,9 @@ PROPS['C06'] = dict(
     rule='evaluations = schedules executed. Non-trivial = distinct (park point, k, position, go form) where stop was delivered to a parked search thread or after the search had finished; race-half sessions are reported under coverage.race_half.',
     assumptions=['the hook callback runs on the search thread at the documented points (engine/verif_hooks.h)'],
     run_fn='run_c06', replay_fn='replay_c06',
-    quick=dict(cases=26, shards=16, scale=3, race_shards=4, race_cases=4, race_min_sessions=12,
+    quick=dict(cases=40, shards=16, scale=3, race_shards=4, race_cases=4, race_min_sessions=12,
                gates={'c06:stop_delivered_at_thread_start': 10, 'c06:stop_delivered_at_go_entry': 10, 'c06:stop_delivered_at_go_after_init': 10, 'c06:stop_delivered_at_go_after_reset': 10,
-                      'c06:stop_delivered_at_node_visit': 40, 'c06:stop_delivered_at_iteration_end': 4, 'c06:stop_delivered_at_before_bestmove': 3, 'c06:explosive_position': 40}, min_nontrivial=150),
+                      'c06:stop_delivered_at_node_visit': 40, 'c06:stop_delivered_at_iteration_end': 4, 'c06:stop_delivered_at_before_bestmove': 3, 'c06:explosive_position': 40, 'c06:free_running_trial': 1000}, min_nontrivial=150),
     thorough=dict(cases=400, shards=16, scale=3, race_shards=16, race_cases=40, race_min_sessions=400, min_nontrivial=3000),
 )
 
